@@ -123,3 +123,25 @@ Proof.
     - intros [p [Hp Hpos]]. exists p. split; [exact Hp|apply (ag_pos c s Ha); exact Hpos]. }
   intros p. cbn [view_form length]. rewrite !andb_true_r. cbn. rewrite andb_true_r. reflexivity.
 Qed.
+
+(* _HexGrid.torus_adj_2d (the unconditional wrap the hex neighbourhoods use) and the public torus_adj *)
+Lemma hex_torus_adj_2d c p :
+  wf c ->
+  out_of_bounds c (torus_adj_2d c p) = false /\
+  (c_torus c = true -> torus_adj c p = Some (torus_adj_2d c p)) /\
+  (out_of_bounds c p = false -> torus_adj_2d c p = p /\ torus_adj c p = Some p) /\
+  torus_adj_2d c (torus_adj_2d c p) = torus_adj_2d c p /\
+  (forall q, torus_adj c p = Some q -> torus_adj_2d c p = q).
+Proof.
+  intros Hwf. pose proof Hwf as [Hw Hh]. unfold torus_adj_2d.
+  pose proof (Z.mod_pos_bound (fst p) (c_w c) Hw) as Bx. pose proof (Z.mod_pos_bound (snd p) (c_h c) Hh) as By.
+  split; [apply oob_false_iff; cbn [fst snd]; lia|].
+  split; [intros Ht; apply torus_adj_torus; assumption|].
+  split.
+  { intros Hin. pose proof Hin as Hin'. apply oob_false_iff in Hin'. rewrite !Z.mod_small by lia.
+    split; [destruct p; reflexivity|apply torus_adj_inb; exact Hin]. }
+  split; [cbn [fst snd]; rewrite !Z.mod_mod by lia; reflexivity|].
+  intros q Hq. unfold torus_adj in Hq. destruct (out_of_bounds c p) eqn:Ho; cbn [negb] in Hq.
+  - destruct (c_torus c); cbn [negb] in Hq; [inversion Hq; reflexivity|discriminate].
+  - inversion Hq. subst q. apply oob_false_iff in Ho. rewrite !Z.mod_small by lia. destruct p; reflexivity.
+Qed.
